@@ -23,6 +23,7 @@ import (
 	"fmt"
 	"math"
 	"sort"
+	"strconv"
 	"sync"
 
 	"github.com/dustin/go-humanize"
@@ -347,6 +348,14 @@ func addRecordToAggregations(grpReq *structs.GroupByRequest, timeHistogram *stru
 				// grpReq won't work since aggs like range are converted to 2 aggs -> min and max
 				if MFuncs[idx].MeasureFunc != sutils.LatestTime && MFuncs[idx].MeasureFunc != sutils.EarliestTime {
 					measureResults[idx] = retCVal
+					if retCVal.Dtype == sutils.SS_DT_STRING && sutils.IsNumTypeAgg(MFuncs[idx].MeasureFunc) {
+						// A number stored as a string (a numeric string, or a number of a block
+						// whose column was consolidated to strings) takes part in sum/avg/min/
+						// max/range by value, as it does without group-by (stats.AddSegStatsStr).
+						if floatVal, err := strconv.ParseFloat(retCVal.CVal.(string), 64); err == nil {
+							measureResults[idx] = sutils.CValueEnclosure{Dtype: sutils.SS_DT_FLOAT, CVal: floatVal}
+						}
+					}
 				} else {
 					tsCVal := sutils.CValueEnclosure{}
 					tsErr := multiColReader.ExtractValueFromColumnFile(colKeyIdx, blockNum, recNum, qid, true, &tsCVal)
